@@ -83,7 +83,11 @@ func genCsiPre(c *ex.Ctx, emit func(name string, t *btr, body string)) {
 			if len(p0.Names) == 1 && len(p1.Names) == 1 && t.src(p0.Type) == "string" && t.src(p1.Type) == "[][]int" {
 				list := fd.Body.List
 				n := len(list)
-				if sw, ok := list[n-1].(*ast.SwitchStmt); n >= 1 && ok && sw.Init == nil && sw.Tag != nil && t.src(sw.Tag) == p0.Names[0].Name {
+				var sw *ast.SwitchStmt
+				if n >= 1 {
+					sw, _ = list[n-1].(*ast.SwitchStmt)
+				}
+				if sw != nil && sw.Init == nil && sw.Tag != nil && t.src(sw.Tag) == p0.Names[0].Name {
 					t.unknown = 0
 					t.pmName = p1.Names[0].Name
 					t.consts = intConsts(f)
